@@ -297,9 +297,11 @@ def _cse_mapper(ctx, model):
     cm = model.cls(f"{CSE}:CSEMapper")
     own = sorted(s for s in model.own_slots(cm))
     want = sorted(INTERCEPTED + ["map_common_subexpression", "map_substitution"])
-    ctx.ob("O/CSEMapper/interceptors", own == want, cm.loc(),
-           f"intercepts {INTERCEPTED}" if own == want else
-           f"CSEMapper defines {own}, expected {want}")
+    missing = sorted(set(want) - set(own))
+    ctx.ob("O/CSEMapper/interceptors", not missing, cm.loc(),
+           f"intercepts {INTERCEPTED}" if not missing else
+           f"CSEMapper no longer intercepts {missing}: repeated nodes of that "
+           "kind are never shared")
     base = cm.members.get("map_sum")
     for s in INTERCEPTED:
         mem = model.lookup(cm, s)
